@@ -39,7 +39,12 @@ RULE = ("random circuits of 1-4 persistent-capable blocks (Input, Counter, Timer
         "__setitem__, pop/__delitem__, keys()/iteration and __getitem__ of chosen keys raise OSError / RuntimeError / an "
         "application exception on demand): reads of block entries and of the stop time, keys() and the purge at the "
         "start of the first or of a restarted circuit, writes (and the pop that removes the stale entry) during a "
-        "stretch of events and timer firings, at the saves and the stop-time write of the stop; compared with the Lean "
+        "stretch of events and timer firings, at the saves and the stop-time write of the stop; half of the generated FSM "
+        "classes have one or two entry actions that request a CHAINED transition with an event or a Goto to their own "
+        "block (acyclic; later entry actions / conditions of the chain may fail or reject, Goto targets may be unknown) "
+        "and 12 % an on_enter / on_exit event of a type its destination does not know; the storage is copied after "
+        "EVERY write (crash points inside an event), a third of the scenarios restart from a JSON-like storage that "
+        "returns a saved tuple as a list; compared with the Lean "
         "model line by line: result of every event, every block's persistent flag/state/output/sdata/absolute "
         "timer expiry/entry-action log, persistent_ts and the canonicalised storage; a case is distinct by its "
         "(lines, trace) hash and non-trivial when it has at least one storage-changing event and one restart")
@@ -54,7 +59,10 @@ ASSUMPTIONS = [
     "15-line membership function in the harness); C07/C13 are about that predicate",
     "storage back-end with value semantics (deep copy on write and on read, like shelve)",
     "Counter values are ints; FSM callbacks are scripts (cond: yes/no/state!=s/InputExp.cond_put/raise; enter: "
-    "nop/sdata[k]=v/raise); no chained events, no zero durations, no per-event duration (C03/C04 cover these)",
+    "nop/sdata[k]=v/raise/self.event(EVENT)/self.event(Goto(STATE))); chained transitions only as requested by an entry "
+    "action (one request per action, acyclic), no zero durations, no per-event duration (C03/C04 cover these)",
+    "an on_enter/on_exit event of an unknown type (nested EdzedUnknownEvent, the C09 known findings) is not modelled: the "
+    "comparison with the model ends before the first such event of a scenario, the oracle judges the whole run",
     "events during the clean-up of a FAILED start-up are not modelled (circuits with the slow clean-up block are "
     "generated so that their initialisation succeeds); after an interrupted clean-up the life ends (FSM timers "
     "that were not cancelled are not followed any further)",
@@ -100,6 +108,16 @@ class Storage(vtime.Storage):
         super().__init__(*args)
         self.faults = dict(NO_FAULTS)
         self.exc = OSError
+        self.wlog = None          # while a list: a deep copy of the content is appended after EVERY write
+        self.seq_as_list = False  # a JSON-backed mapping: a saved tuple comes back as a list
+
+    def faults_active(self):
+        f = self.faults
+        return bool(f['w'] or f['d'] or f['i'] or f['r'])
+
+    def _written(self):
+        if self.wlog is not None:
+            self.wlog.append(copy.deepcopy(self.raw()))
 
     def boom(self, what):
         raise self.exc(f'storage fault: {what}')
@@ -112,17 +130,28 @@ class Storage(vtime.Storage):
     def __setitem__(self, key, value):
         if self.faults['w']:
             self.boom('write')
+        if self.seq_as_list and isinstance(value, tuple) and len(value) == 3 and isinstance(value[2], dict):
+            try:
+                value = json.loads(json.dumps(value))      # (state, time stamp, sdata) -> [state, time stamp, sdata]
+            except (TypeError, ValueError):
+                pass
         super().__setitem__(key, value)
+        self._written()
 
     def pop(self, key, *default):
         if self.faults['d']:
             self.boom('pop')
-        return super().pop(key, *default)
+        had = dict.__contains__(self, key)
+        rv = super().pop(key, *default)
+        if had:
+            self._written()
+        return rv
 
     def __delitem__(self, key):
         if self.faults['d']:
             self.boom('del')
         super().__delitem__(key)
+        self._written()
 
     def keys(self):
         if self.faults['i']:
@@ -281,7 +310,8 @@ def enc_kind(spec):
     trans = lst(f"{e}~{'*' if f is None else f}~{to}" for e, f, to in t['trans'])
     timers = lst(f"{s}~{'inf' if d is None else d}~{ev[0]}.{ev[1]}" for s, d, ev in t['timers'])
     conds = lst('~'.join(c) for c in t['conds'])
-    enters = lst(f"{e[0]}~{e[1]}" if e[1] != 'set' else f"{e[0]}~set~{e[2]}~{enc(e[3])}" for e in t['enters'])
+    enters = lst(f"{e[0]}~set~{e[2]}~{enc(e[3])}" if e[1] == 'set' else
+                 (f"{e[0]}~{e[1]}~{e[2]}" if e[1] in ('chain', 'goto') else f"{e[0]}~{e[1]}") for e in t['enters'])
     out = t['out'][0] if t['out'][0] == 'state' else (f"is~{t['out'][1]}" if t['out'][0] == 'is' else f"iexp~{enc(t['out'][1])}")
     return f"fsm {lst(t['states'])} {trans} {timers} {conds} {enters} {out} {t['init']} {enc_data(t['sdata'])}"
 
@@ -327,6 +357,12 @@ def make_block(spec, life):
                 return
             if sc[0] == 'raise':
                 raise RuntimeError('enter action failed')
+            if sc[0] == 'chain':        # the documented chained transition: an event to the own block
+                holder['blk'].event(sc[1])
+                return
+            if sc[0] == 'goto':
+                holder['blk'].event(edzed.Goto(sc[1]))
+                return
             holder['blk'].sdata[sc[1]] = sc[2]
         return enter
     for st in t['states']:
@@ -352,6 +388,9 @@ def make_block(spec, life):
             raise ValueError(c)
         for c in t['conds']:
             kw['cond_' + c[0]] = mk_cond(c)
+        for trig, st in t.get('bogus', []):
+            # an on_enter / on_exit event of a type the destination does not know
+            kw[f'on_{trig}_{st}'] = edzed.Event('zz_sink', 'bogus')
         timers = {s: (edzed.INF_TIME if d is None else d / 1e6, ev[1] if ev[0] == 'E' else edzed.Goto(ev[1]))
                   for s, d, ev in t['timers']}
         cls = type('GFsm', (edzed.FSM,), {
@@ -474,12 +513,18 @@ class Life:
     # ---- building
 
     def build(self, mode, failer_first):
+        if any(spec.get(a) == 0 for spec in self.specs for a in ('t_on', 't_off', 'dur')):
+            # a zero-length timer delivers its event at once, as a nested event() of the block (`_start_timer`):
+            # not modelled - nothing of such a scenario is compared with the model, the oracle judges it
+            self.cut_here()
         edzed.reset_circuit()
         self.circuit = edzed.get_circuit()
         self.circuit.set_persistent_data(self.store)
         if mode == 'raises' and failer_first:
             Failer('zz_failer')
         self.blocks = [make_block(spec, self) for spec in self.specs]
+        if any(spec['kind'] == 'fsm' and spec['tables'].get('bogus') for spec in self.specs):
+            edzed.Input('zz_sink', initdef=0)
         if mode == 'raises' and not failer_first:
             Failer('zz_failer')
         if self.slow is not None:
@@ -526,6 +571,8 @@ class Life:
             before = len(self.snaps) - 1
             err0 = self.circuit.error
             res = None
+            watch = not self.store.faults_active()
+            self.store.wlog = [] if watch else None
             try:
                 rv = orig(etype, **data)
                 res = 'ret ' + enc(rv)
@@ -535,12 +582,16 @@ class Life:
                 raise
             finally:
                 self.in_call = False
+                writes, self.store.wlog = self.store.wlog, None
                 self.fired.append(idx)
                 if res == 'err Abort':
                     self.bad.setdefault(idx, before)
+                nested_unknown = res == 'err UnknownEvent'     # (a timed event is always known to its FSM)
+                if nested_unknown:
+                    self.cut_here()
                 self.lines.append(f'persist fire {idx} {self.cal}')
-                self.trace.append(f'at={self.world.now_us()} {res} ' + self.render())
-                self.snap('fire', blk=idx, res=res)
+                self.trace.append(f'at={self.world.now_us()} {res} ' + self.wfmt(writes) + self.render())
+                self.snap('fire', blk=idx, res=res, writes=writes, nested_unknown=nested_unknown)
         blk.event = wrapper
 
     def set_faults(self, spec):
@@ -746,6 +797,8 @@ class Life:
         etype = edzed.Goto(name[5:]) if name.startswith('goto.') else (name[2:] if name.startswith('n.') else name)
         err0 = self.circuit.error
         self.in_call = True
+        watch = not self.store.faults_active()
+        self.store.wlog = [] if watch else None
         try:
             rv = blk.event(etype, **data)
             res = 'ret ' + enc(rv)
@@ -753,12 +806,34 @@ class Life:
             res = self.classify(err, err0)
         finally:
             self.in_call = False
+            writes, self.store.wlog = self.store.wlog, None
         if res == 'err Abort':
             self.bad.setdefault(idx, before)
+        # EdzedUnknownEvent for an event the block KNOWS: it comes from a nested event sent by the handler
+        nested_unknown = False
+        if res == 'err UnknownEvent' and spec['kind'] == 'fsm':
+            t = spec['tables']
+            nested_unknown = (name.startswith('n.') and name[2:] in {x[0] for x in t['trans']}) or \
+                (name.startswith('goto.') and name[5:] in t['states'])
+        if nested_unknown:
+            self.cut_here()
         self.cal = self.cal_table(self.configs)
         self.lines.append(f'persist ev {idx} {name} {wire_arg} {self.cal}')
-        self.trace.append(res + ' ' + self.render())
-        self.snap('ev', blk=idx, res=res, op=op)
+        self.trace.append(res + ' ' + self.wfmt(writes) + self.render())
+        self.snap('ev', blk=idx, res=res, op=op, writes=writes, nested_unknown=nested_unknown)
+
+    def cut_here(self):
+        """a nested EdzedUnknownEvent (known finding C09-nested-unknown-*) is not modelled: the comparison with the
+        model ends before this line; the oracle goes on judging the rest of the run"""
+        if getattr(self.world, 'c06_cut', None) is None and self.lines is getattr(self.world, 'c06_lines', None):
+            self.world.c06_cut = len(self.lines)
+
+    @staticmethod
+    def wfmt(writes):
+        """the storage after every write made during one event (`None`: not watched, the storage is failing)"""
+        if writes is None:
+            return ''
+        return 'W=' + ('|'.join(enc_store(w) for w in writes) or '-') + ' '
 
 
 # ----------------------------------------------------------------------------- scenarios
@@ -811,10 +886,89 @@ def _gen_fsm(rng, name):
             enters.append([st, 'raise'])
         elif r < 0.5:
             enters.append([st, 'nop'])
-    return {'kind': 'fsm', 'name': name,
-            'tables': {'states': states, 'trans': trans, 'timers': timers, 'conds': conds, 'enters': enters,
-                       'out': ['state'], 'init': init,
-                       'sdata': rng.choice([{}, {}, {'k': 0}])}}
+    tables = {'states': states, 'trans': trans, 'timers': timers, 'conds': conds, 'enters': enters,
+              'out': ['state'], 'init': init, 'sdata': rng.choice([{}, {}, {'k': 0}])}
+    if rng.random() < 0.5:
+        _add_chains(rng, tables)
+    if rng.random() < 0.12:
+        trig = rng.choice(['enter', 'exit'])
+        cands = [st for st in states if trig == 'exit' or st not in (init, _init_final(tables))]
+        if cands:
+            tables['bogus'] = [[trig, rng.choice(cands)]]
+    return {'kind': 'fsm', 'name': name, 'tables': tables}
+
+
+def _next_state(tables, ev, st):
+    for e, f, to in tables['trans']:
+        if e == ev and f == st:
+            return to
+    for e, f, to in tables['trans']:
+        if e == ev and f is None:
+            return to
+    return None
+
+
+def _chain_cyclic(tables):
+    """could the chained transitions requested by the entry actions go on for ever? (conditions ignored)"""
+    scripts = {e[0]: e for e in tables['enters']}
+    for st in tables['states']:
+        seen, cur = set(), st
+        while cur is not None:
+            if cur in seen:
+                return True
+            seen.add(cur)
+            sc = scripts.get(cur)
+            if sc is None or sc[1] not in ('chain', 'goto'):
+                break
+            cur = _next_state(tables, sc[2], cur) if sc[1] == 'chain' else (sc[2] if sc[2] in tables['states'] else None)
+    return False
+
+
+def _init_final(tables):
+    """the state the initial transition (conditions are skipped there) ends in, following the chained transitions
+    of the entry actions; None: it runs into a failing entry action"""
+    scripts = {e[0]: e for e in tables['enters']}
+    cur = tables['init']
+    for _ in range(len(tables['states']) + 1):
+        sc = scripts.get(cur)
+        if sc is None:
+            return cur
+        if sc[1] == 'raise':
+            return None
+        if sc[1] == 'chain':
+            nxt = _next_state(tables, sc[2], cur)
+            if nxt is None:
+                return cur
+            cur = nxt
+        elif sc[1] == 'goto':
+            if sc[2] not in tables['states']:
+                return None
+            cur = sc[2]
+        else:
+            return cur
+    return None
+
+
+def _init_chain_fails(tables):
+    return _init_final(tables) is None
+
+
+def _add_chains(rng, tables):
+    """entry actions that request a chained transition: `self.event(EVENT)` / `self.event(Goto(STATE))`"""
+    states = tables['states']
+    evnames = sorted({t[0] for t in tables['trans']})
+    for st in rng.sample(states, rng.randint(1, 2)):
+        saved = [list(e) for e in tables['enters']]
+        if rng.random() < 0.7:
+            good = [e for e in evnames if _next_state(tables, e, st) not in (None, st)]
+            ev = rng.choice(good) if good and rng.random() < 0.8 else rng.choice(evnames)
+            script = [st, 'chain', ev]
+        else:
+            others = [x for x in states if x != st]
+            script = [st, 'goto', rng.choice(others) if rng.random() < 0.93 else 'zz']
+        tables['enters'] = [e for e in tables['enters'] if e[0] != st] + [script]
+        if _chain_cyclic(tables) or _init_chain_fails(tables):
+            tables['enters'] = saved
 
 
 def _gen_block(rng, i, family):
@@ -1149,6 +1303,7 @@ def _gen_scenario(rng, tier, family):
                 store0.append([key_of(spec), e])
     scn['store0'] = store0
     del scn['_windows']
+    scn['json_store'] = rng.random() < 0.35      # the restarts read a storage that hands sequences back as lists
     return scn
 
 
@@ -1219,8 +1374,60 @@ def _storage_outage_seed():
                           'sync': [True, True], 'start_fault': {'r': [0]}}]}
 
 
+def _chain_seed(fail, via_goto=False):
+    """the documented chained transition: enter_X requests the next transition (X -> Y) with an event to its own
+    block; with `fail` the entry action of Y raises.  Crash points after every storage write."""
+    t0 = WALL0
+    tables = {'states': ['A', 'X', 'Y'], 'trans': [['go', 'A', 'X'], ['next', 'X', 'Y'], ['back', None, 'A']],
+              'timers': [['Y', 64 * TICK, ['E', 'back']]], 'conds': [],
+              'enters': [['X', 'goto', 'Y'] if via_goto else ['X', 'chain', 'next']] + ([['Y', 'raise']] if fail else []),
+              'out': ['state'], 'init': 'A', 'sdata': {}}
+    blk = {'kind': 'fsm', 'name': 'b0', 'tables': tables, 'p': True, 's': True, 'exp': None}
+    return {'family': 'a', 'blocks': [blk], 't0': t0, 'mode': 'ok', 'failer_first': False,
+            'ops': [['adv', t0 + 32 * TICK], ['ev', 0, 'n.go', None], ['adv', t0 + 40 * TICK]],
+            't_stop': t0 + 48 * TICK, 'store0': [],
+            'restarts': [{'snap': 2, 'down': 'short', 'exp': ['none'], 'drop': [], 'nopersist': [], 'sync': [True]},
+                         {'snap': -1, 'down': 'short', 'exp': ['none'], 'drop': [], 'nopersist': [], 'sync': [True]}]}
+
+
+def _bogus_seed(trig):
+    """an on_enter / on_exit event of an FSM state goes to a block that does not know the event type"""
+    t0 = WALL0
+    tables = {'states': ['s0', 's1', 's2'], 'trans': [['e0', 's0', 's1'], ['e1', 's1', 's2'], ['e1', 's0', 's2']],
+              'timers': [], 'conds': [], 'enters': [], 'out': ['state'], 'init': 's0', 'sdata': {},
+              'bogus': [[trig, 's1' if trig == 'enter' else 's0']]}
+    blk = {'kind': 'fsm', 'name': 'b0', 'tables': tables, 'p': True, 's': True, 'exp': None}
+    return {'family': 'a', 'blocks': [blk], 't0': t0, 'mode': 'ok', 'failer_first': False,
+            'ops': [['adv', t0 + 32 * TICK], ['ev', 0, 'n.e0', None], ['ev', 0, 'n.e1', None], ['adv', t0 + 40 * TICK]],
+            't_stop': t0 + 48 * TICK, 'store0': [],
+            'restarts': [{'snap': -1, 'down': 'short', 'exp': ['none'], 'drop': [], 'nopersist': [], 'sync': [True]}]}
+
+
+def _zero_timer_seed(kind):
+    """zero-length timers: the timed event is delivered inside `_start_timer`, as a nested event() of the block, while
+    the transition into the timed state is still in progress (Timer: start -> on -> at once off; InputExp: put -> valid
+    -> at once expired); oracle only"""
+    t0 = WALL0
+    if kind == 'timer':
+        blk = {'kind': 'timer', 'name': 'b0', 'restartable': True, 't_on': 0, 't_off': None, 'p': True, 's': True, 'exp': None}
+        ops = [['adv', t0 + 32 * TICK], ['ev', 0, 'n.start', None], ['adv', t0 + 40 * TICK], ['ev', 0, 'n.toggle', None]]
+    else:
+        blk = {'kind': 'inputexp', 'name': 'b0', 'dur': 0, 'expired': 'EXP', 'initdef': None, 'p': True, 's': True, 'exp': None}
+        ops = [['adv', t0 + 32 * TICK], ['ev', 0, 'put', ['v']], ['adv', t0 + 40 * TICK], ['ev', 0, 'put', [5]]]
+    return {'family': 'a', 'blocks': [blk], 't0': t0, 'mode': 'ok', 'failer_first': False, 'ops': ops,
+            't_stop': t0 + 48 * TICK, 'store0': [],
+            'restarts': [{'snap': 2, 'down': 'short', 'exp': ['none'], 'drop': [], 'nopersist': [], 'sync': [True]}]}
+
+
 def scenarios(rng, tier):
     yield _defect8_seed()
+    yield _zero_timer_seed('timer')
+    yield _zero_timer_seed('inputexp')
+    yield _chain_seed(True)
+    yield _chain_seed(False)
+    yield _chain_seed(True, via_goto=True)
+    yield _bogus_seed('enter')
+    yield _bogus_seed('exit')
     yield _storage_outage_seed()
     yield _condnone_seed(True)
     yield _condnone_seed(False)
@@ -1327,6 +1534,7 @@ def run_impl(scn):
 def _run_impl(scn, world):
     family = scn['family']
     lines, trace = [], []
+    world.c06_lines, world.c06_cut = lines, None
     configs = _configs(scn)
     store = Storage()
     for k, e in scn['store0']:
@@ -1368,6 +1576,7 @@ def _run_impl(scn, world):
         if not specs2:
             continue
         st2 = Storage()
+        st2.seq_as_list = bool(scn.get('json_store'))
         for k, v in snap['store'].items():
             st2[k] = v
         life = Life(world, specs2, st2, family, lines, trace)
@@ -1391,6 +1600,8 @@ def _run_impl(scn, world):
         tags.append('links')
     if 'fault_exc' in scn:
         tags.append('storage-faults')
+    if scn.get('json_store') and restarts:
+        tags.append('restart-from-json-like-storage')
     for sn in first.snaps:
         if sn['label'] in ('ev', 'fire') and sn.get('faults'):
             tags.append('event-on-failing-storage')
@@ -1414,6 +1625,20 @@ def _run_impl(scn, world):
         tags.append('timer-fired')
     if any(s['label'] == 'fire' and s['res'] == 'ret b0' for s in first.snaps):
         tags.append('timed-event-rejected')
+    for sn in first.snaps:
+        if sn['label'] in ('ev', 'fire'):
+            if sn.get('nested_unknown'):
+                tags.append('nested-unknown-event')
+            if len(sn.get('writes') or []) > 1:
+                tags.append('several-writes-in-one-event')
+    for b in scn['blocks']:
+        if b['kind'] == 'fsm' and any(e[1] in ('chain', 'goto') for e in b['tables']['enters']):
+            tags.append('chained-transitions')
+            break
+    tags = sorted(set(tags), key=tags.index)
+    cut = getattr(world, 'c06_cut', None)
+    if cut is not None:
+        lines, trace = lines[:cut], trace[:cut]
     return {'lines': lines, 'trace': trace, 'tags': tags, 'nontrivial': changing > 0 and bool(restarts),
             'first': first.snaps, 'bad': first.bad, 'store0': store0, 'restarts': restarts}
 
@@ -1480,6 +1705,7 @@ def oracle(scn, res):
     # ---- storage follows the state
     saves = {}                # block index -> [(snapshot index, observation)] at its legitimate saves
     frozen = {}               # block index -> entry at the time of its handler error
+    frozen_nu = {}            # the same for a handler that failed with a nested EdzedUnknownEvent (no abort)
     if first[0]['label'] == 'init':
         for i, spec in enumerate(specs):
             o = first[0]['obs'][i]
@@ -1506,6 +1732,24 @@ def oracle(scn, res):
                     viol('event_unaffected_by_storage_fault',
                          f"{s['label']} #{n} ({s.get('op')}) on a storage whose writes fail ({flt}): event() raised the "
                          f"storage's exception instead of returning the handler's result", faults=sorted(flt))
+            # ---- crash points INSIDE the event: the storage after every write made while the event was handled
+            if spec['p'] and spec['s'] and s.get('writes') is not None:
+                before = _entry_view(spec, first[n - 1]['store'].get(keys[i], KeyError))
+                done = _expected_entry(spec, s['obs'][i]) if s['res'].startswith('ret') else None
+                for wn, w in enumerate(s['writes']):
+                    got = _entry_view(spec, w.get(keys[i], KeyError))
+                    if _same(got, before) or (done is not None and _same(got, done)):
+                        continue
+                    viol('storage_never_holds_intermediate_state',
+                         f"{s['label']} #{n} ({s.get('op')}, {s['res']}): write {wn + 1} of {len(s['writes'])} made during the "
+                         f"event left {keys[i]} = {got!r} in the storage; the state after the last completed event is "
+                         f"{before!r}" + (f", after this one {done!r}" if done is not None else " (this event failed)"),
+                         at=s['label'], failed=done is None)
+                    break
+            if s.get('nested_unknown') and i not in frozen and i not in frozen_nu:
+                # the handler failed with an exception raised by a nested event (an on_enter / on_exit event of a type
+                # its destination does not know): "nothing is written once an event handler of the block has failed"
+                frozen_nu[i] = (first[n - 1]['store'].get(keys[i], KeyError), n)
             if s['res'] == 'err Abort' and i not in frozen:
                 frozen[i] = first[n - 1]['store'].get(keys[i], KeyError)
             elif (s['res'].startswith('ret') and flt.get('w') and spec['p'] and spec['s'] and i not in frozen
@@ -1593,6 +1837,13 @@ def oracle(scn, res):
                         got = _entry_view(spec, s['store'].get(keys[i], KeyError))
                         if not _same(want, got):
                             viol('stop_saves_all_with_timestamp', f'after stop: {keys[i]} holds {got!r}, block state {want!r}')
+        for i, (e, at) in frozen_nu.items():
+            if i not in frozen and n > at and not _same(s['store'].get(keys[i], KeyError), e):
+                viol('frozen_after_handler_error',
+                     f"snapshot {n} ({s['label']}): entry of {keys[i]} was written after its handler had failed with an "
+                     f"EdzedUnknownEvent of a nested event (event #{at}): {s['store'].get(keys[i])!r}, was {e!r}",
+                     cause='nested-unknown-event')
+                break
         for i, e in frozen.items():
             if not _same(s['store'].get(keys[i], KeyError), e):
                 viol('frozen_after_handler_error',
